@@ -86,10 +86,10 @@ def out_sha(outdir):
     return h.hexdigest()
 
 
-def run_once(d, lang, mode, env, tag, roots=None):
+def run_once(d, lang, mode, env, tag, roots=None, extra=None):
     out = os.path.join(d, f"out_{tag}")
     os.makedirs(out, exist_ok=True)
-    args = ["-l", lang] + LANG_ARGS[lang]
+    args = ["-l", lang] + LANG_ARGS[lang] + list(extra or [])
     args += ["-o", os.path.join(out, "out." + common.EXT[lang])] if mode == "single" else ["-d", out]
     # roots: several DIRECTORIES arguments (every one of them is scanned), else the one source root
     args += [os.path.join(d, "src_root", r) for r in roots] if roots else [os.path.join(d, "src_root")]
@@ -294,9 +294,16 @@ def run(chk):
             if lang == "go" and mode == "multi":
                 continue
             d = os.path.join(work, f"rich_{lang}_{mode}")
-            cli.make_tree(os.path.join(d, "src_root"), {"rich/src/lib.rs": rich})
+            cli.make_tree(os.path.join(d, "src_root"), {"rich/src/lib.rs": rich + "#[typeshare]\npub struct Stamp { pub at: DateTime<Utc>, pub id: AccountId }\n"})
+            # a configuration file with every file-only table filled in, several entries each; mapping keys that differ only in a
+            # path qualification (inert as keys today; whatever they mean, they mean the same in every process)
+            maps = '"chrono::DateTime" = "MappedA"\n"time::DateTime" = "MappedB"\n"DateTime" = "MappedC"\n"AccountId" = "MappedId"\n"a::AccountId" = "MappedOther"\n'
+            open(os.path.join(d, "rich.toml"), "w").write(
+                f"[{lang}.type_mappings]\n{maps}" + {"swift": '[swift]\ndefault_decorators = ["Sendable", "Identifiable", "Hashable"]\ndefault_generic_constraints = ["Sendable", "Hashable"]\n'
+                                                          'codablevoid_constraints = ["Equatable", "Hashable", "Sendable"]\n',
+                                                 "go": '[go]\nuppercase_acronyms = ["ID", "URL", "API"]\n'}.get(lang, ""))
             for rep in range(24 if thorough else 8):
-                r, sha, _ = run_once(d, lang, mode, {}, f"s{rep}")
+                r, sha, _ = run_once(d, lang, mode, {}, f"s{rep}", extra=["-c", os.path.join(d, "rich.toml")])
                 if r["exit"] != "ok":
                     sha = "refused:" + r["exit"]          # Kotlin / Swift / Scala refuse nothing here; whatever the outcome, it is the same in every process
                 col.add(f"rich_{lang}_{mode}", sha, {"mode": mode, "dim": "fresh-process", "features": "feature-rich-program", "lang": lang, "detail": f"process {rep}"})
